@@ -1527,6 +1527,13 @@ impl Analyzable for Array
 			.map(|element| {
 				let element = element.analyze(typer);
 				let element_type = element.value_type();
+				// An element that was replaced by its error does not decide
+				// the element type: the other elements are still checked
+				// against each other (also in a later pass over this body).
+				if let Expression::Poison(_) = element
+				{
+					return element;
+				}
 				typer.contextual_type = element_type.clone();
 				match typer.put_symbol(&name, element_type)
 				{
